@@ -43,6 +43,12 @@ func NormalizeValue(t interface{}) JSONValue {
 	}
 }
 
+// NormalizeKey returns a member name as every other replica will see it: names travel as JSON text, which replaces
+// bytes that are not valid UTF-8.
+func NormalizeKey(key string) string {
+	return strings.ToValidUTF8(key, "\uFFFD")
+}
+
 // ConvertValueList converts an array of values to JSONSupportedValue
 func ConvertValueList(values []interface{}) ([]interface{}, error) {
 	var jsonValues []interface{}
